@@ -4,13 +4,16 @@
   `unevaluatedItems`, `unevaluatedProperties` unknown — finding D27, repaired; `$dynamicRef` unknown, to Resolve too —
   finding D28, repaired).
   Property theorems only (helper lemmas: JSV/Proofs/InvDraft.lean, JSV/Proofs/InvLater.lean, JSV/Proofs/ResDraft.lean,
-  JSV/Proofs/ResLater.lean; section "algebraic laws":
+  JSV/Proofs/ResLater.lean; "each draft sees only its own vocabulary": JSV/Proofs/InvVocab.lean, JSV/Proofs/ResVocab.lean;
+  section "algebraic laws":
   JSV/Proofs/SpecLaws*.lean).
 -/
 import JSV.Proofs.InvDraft
 import JSV.Proofs.InvLater
+import JSV.Proofs.InvVocab
 import JSV.Proofs.ResDraft
 import JSV.Proofs.ResLater
+import JSV.Proofs.ResVocab
 import JSV.Proofs.DflVal
 import JSV.Props.C01
 import JSV.Proofs.SpecLawsScope
@@ -343,6 +346,192 @@ theorem draft7_validateDefaults_ignores_dynamicRef (env : VEnv) (hd : env.draft 
 /-- under 2020-12 nothing changed: the Spec reads the whole schema object -/
 theorem draft2020_vocab (env : Spec.Env) (hd : env.draft = .d2020) (n : Node) : Spec.vocab env.draft n = n := by
   rw [hd]; rfl
+
+/-! ## each draft sees only its own vocabulary
+
+The two statements above (`draft7_model_ignores` / `draft7_ignores_later_keywords`) put together and completed: to a
+validation under draft-07 EVERY keyword that only 2020-12 defines is an unknown keyword, and to a validation under 2020-12
+every draft-07-only keyword is.  What the code does, keyword by keyword (`vocabulary_table` below classifies every field
+of the Go struct):
+
+* evaluator and Spec, draft-07: `prefixItems`, `dependentRequired`, `dependentSchemas`, `minContains`, `maxContains`,
+  `unevaluatedItems`, `unevaluatedProperties`, `$dynamicRef` are not read (`st.rs.draft` is tested before each);
+  `$anchor` and `$dynamicAnchor` are read by no evaluation under either draft (the evaluator reads the `anchors` table
+  Resolve built, which has entries for them under 2020-12 only: `draft7_resolve_ignores_anchors`);
+* evaluator and Spec, 2020-12: `dependencies` (both forms), array-form `items`, `additionalItems` are not read;
+* Schema.Resolve is another matter for the keywords that hold SUBSCHEMAS (`prefixItems`, `dependentSchemas`,
+  `unevaluatedItems`, `unevaluatedProperties`; `dependencies`, array-form `items`, `additionalItems`): whatever the draft,
+  checkStructure walks them (a nil or shared subschema is an error), checkLocal compiles their patterns, resolveURIs gives
+  their `$id`s a base URI and registers them, resolveRefs resolves their `$ref`s (loading documents), and they are
+  addressable by JSON Pointer.  Erasing them is therefore visible to Resolve (`resolve_sees_ignored_subschemas` below) and
+  no such claim is made; the subschemas under an ignored keyword are resolved and never applied.
+* `$vocabulary` is not ignored under draft-07: checkLocal refuses it in every schema object whose own `$schema` is not
+  the 2020-12 URI (`draft7_vocabulary_keyword_refused`). -/
+
+/-- **Draft-07 sees only the draft-07 vocabulary.**  With the draft-07 `$schema`, erasing from every schema object of
+    the store ALL the keywords that only 2020-12 defines and that hold no `$defs`-like container — `prefixItems`,
+    `dependentRequired`, `dependentSchemas`, `minContains`, `maxContains`, `unevaluatedItems`, `unevaluatedProperties`,
+    `$dynamicRef`, `$anchor`, `$dynamicAnchor` (`Inv.eraseNon7`) — changes no outcome of the Spec (definedness, verdict,
+    evaluated sets; every fuel, scope, schema, instance), nor of the evaluator (verdict, annotations, panic, fuel; every
+    stack, Go value, schema), nor of the entry point `(*Resolved).Validate`. -/
+theorem draft7_vocabulary (env : VEnv) (hd : env.draft = .d7) :
+    (∀ fuel scope s j,
+      Spec.evalFuel (specEnvOf { env with st := env.st.map Inv.eraseNon7 }) fuel scope s j
+        = Spec.evalFuel (specEnvOf env) fuel scope s j) ∧
+    (∀ fuel stack i s,
+      Go.validateFuel { env with st := env.st.map Inv.eraseNon7 } fuel stack i s
+        = Go.validateFuel env fuel stack i s) ∧
+    (∀ supported fuel root inst,
+      Go.validate { env with st := env.st.map Inv.eraseNon7 } supported fuel root inst
+        = Go.validate env supported fuel root inst) :=
+  ⟨Inv.evalFuel_non7 (specEnvOf env) hd, Inv.validateFuel_non7 env hd,
+   Inv.validate_map_of env Inv.eraseNon7 (fun _ => rfl) (Inv.validateFuel_non7 env hd)⟩
+
+/-- **2020-12 sees only the 2020-12 vocabulary.**  With no `$schema` or the 2020-12 one, erasing from every schema object
+    the draft-07-only keywords — `dependencies` in both forms, array-form `items`, `additionalItems`
+    (`Inv.eraseNon2020`) — changes no outcome of the Spec, nor of the evaluator, nor of `(*Resolved).Validate`.
+    (A fragment-only `$id`, the draft-07 spelling of an anchor, is not ignored under 2020-12: Resolve refuses it.) -/
+theorem draft2020_vocabulary (env : VEnv) (hd : env.draft = .d2020) :
+    (∀ fuel scope s j,
+      Spec.evalFuel (specEnvOf { env with st := env.st.map Inv.eraseNon2020 }) fuel scope s j
+        = Spec.evalFuel (specEnvOf env) fuel scope s j) ∧
+    (∀ fuel stack i s,
+      Go.validateFuel { env with st := env.st.map Inv.eraseNon2020 } fuel stack i s
+        = Go.validateFuel env fuel stack i s) ∧
+    (∀ supported fuel root inst,
+      Go.validate { env with st := env.st.map Inv.eraseNon2020 } supported fuel root inst
+        = Go.validate env supported fuel root inst) :=
+  ⟨Inv.evalFuel_non2020 (specEnvOf env) hd, Inv.validateFuel_non2020 env hd,
+   Inv.validate_map_of env Inv.eraseNon2020 (fun _ => rfl) (Inv.validateFuel_non2020 env hd)⟩
+
+/-- the Spec halves for an arbitrary Spec environment (any `refTarget`, `dynDecl` …, not only those of Resolve) -/
+theorem draft7_vocabulary_spec (env : Spec.Env) (hd : env.draft = .d7) : ∀ fuel scope s j,
+    Spec.evalFuel { env with st := env.st.map Inv.eraseNon7 } fuel scope s j = Spec.evalFuel env fuel scope s j :=
+  Inv.evalFuel_non7 env hd
+
+theorem draft2020_vocabulary_spec (env : Spec.Env) (hd : env.draft = .d2020) : ∀ fuel scope s j,
+    Spec.evalFuel { env with st := env.st.map Inv.eraseNon2020 } fuel scope s j = Spec.evalFuel env fuel scope s j :=
+  Inv.evalFuel_non2020 env hd
+
+/-- **Draft-07 Resolve ignores `$anchor` and `$dynamicAnchor`.**  resolveURIs registers the two under 2020-12 only
+    (draft-07 spells a plain-name anchor `"$id": "#name"`).  Erasing both from every schema object of the store changes no
+    outcome of Schema.Resolve (`Go.resolve`: the same success / error / panic / fuel, the same tables — in particular the
+    same `anchors` — and the same Loader calls), when the top document is read under draft-07 and every Loader document
+    declares no `$schema` or a draft-07 one (`LoaderDeclares`: a loaded 2020-12 document keeps its anchors).  With
+    `draft7_ignores_dynamicRef` this covers the three 2020-12-only keywords of `Inv.eraseNon7` that hold no subschema and
+    that Resolve could read; the others either hold subschemas, which Resolve walks whatever the draft (see the section
+    header), or are read by the evaluation alone (`minContains`, `maxContains`, `dependentRequired`). -/
+theorem draft7_resolve_ignores_anchors (renv : Go.Env) (hload : RDraft.LoaderDeclares renv .d7) (fuel : Nat)
+    (root : NodeId) (base : String) (htop : Spec.topDraft renv root = .d7) :
+    Go.resolve { renv with st := renv.st.map Inv.eraseAnchors } fuel root base = Go.resolve renv fuel root base :=
+  RVocab.resolve_erase renv hload fuel root base htop
+
+/-- a self-contained document (no Loader): the hypothesis on the Loader is void -/
+theorem draft7_resolve_ignores_anchors_noloader (renv : Go.Env) (hl : renv.loader = none) (fuel : Nat) (root : NodeId)
+    (base : String) (htop : Spec.topDraft renv root = .d7) :
+    Go.resolve { renv with st := renv.st.map Inv.eraseAnchors } fuel root base = Go.resolve renv fuel root base :=
+  draft7_resolve_ignores_anchors renv (by intro tbl k r h; rw [hl] at h; cases h) fuel root base htop
+
+/-! ### the vocabulary table
+
+Every field of the Go `Schema` struct (`Generated.schemaFields`, regenerated from schema.go) is put in exactly one class.
+A field ADDED to the struct breaks `vocabulary_table_complete` until it is classified, and if it is classified as a
+keyword of one draft only, `vocabulary_only2020` / `vocabulary_only7` break until the erasure (hence
+`draft7_vocabulary` / `draft2020_vocabulary`) covers it. -/
+
+inductive Voc where
+  /-- a keyword of both drafts, read by the evaluation under both -/
+  | both
+  /-- a keyword 2020-12 defines and draft-07 does not: unknown, hence ignored, under draft-07 -/
+  | only2020
+  /-- a draft-07 form that 2020-12 dropped: ignored under 2020-12 -/
+  | only7
+  /-- annotations, declarations, Go-side bookkeeping: no evaluation reads them under either draft -/
+  | annotation
+  /-- identifies a schema or contains schemas without applying them (`$id`, `$schema`, `$defs`, `definitions`): read by
+      Schema.Resolve under both drafts, addressable by JSON Pointer under both, applied by no evaluation -/
+  | structural
+  deriving DecidableEq, Repr
+
+/-- the hand-written classification, by Go field name, in the order of the struct declaration -/
+def vocabularyOf : List (String × Voc) := [
+  ("ID", .structural), ("Schema", .structural), ("Ref", .both), ("Comment", .annotation), ("Defs", .structural),
+  ("Definitions", .structural), ("DependencySchemas", .only7), ("DependencyStrings", .only7), ("Anchor", .only2020),
+  ("DynamicAnchor", .only2020), ("DynamicRef", .only2020), ("Vocabulary", .annotation),
+  ("Title", .annotation), ("Description", .annotation), ("Default", .annotation), ("Deprecated", .annotation), ("ReadOnly", .annotation),
+  ("WriteOnly", .annotation), ("Examples", .annotation),
+  ("Type", .both), ("Types", .both), ("Enum", .both), ("Const", .both), ("MultipleOf", .both), ("Minimum", .both),
+  ("Maximum", .both), ("ExclusiveMinimum", .both), ("ExclusiveMaximum", .both), ("MinLength", .both),
+  ("MaxLength", .both), ("Pattern", .both),
+  ("PrefixItems", .only2020), ("Items", .both), ("ItemsArray", .only7), ("MinItems", .both), ("MaxItems", .both),
+  ("AdditionalItems", .only7), ("UniqueItems", .both), ("Contains", .both), ("MinContains", .only2020),
+  ("MaxContains", .only2020), ("UnevaluatedItems", .only2020),
+  ("MinProperties", .both), ("MaxProperties", .both), ("Required", .both), ("DependentRequired", .only2020),
+  ("Properties", .both), ("PatternProperties", .both), ("AdditionalProperties", .both), ("PropertyNames", .both),
+  ("UnevaluatedProperties", .only2020),
+  ("AllOf", .both), ("AnyOf", .both), ("OneOf", .both), ("Not", .both), ("If", .both), ("Then", .both), ("Else", .both),
+  ("DependentSchemas", .only2020),
+  ("ContentEncoding", .annotation), ("ContentMediaType", .annotation), ("ContentSchema", .annotation), ("Format", .annotation), ("Extra", .annotation),
+  ("PropertyOrder", .annotation)]
+
+/-- the fields of one class -/
+def fieldsOf (c : Voc) : List String := (vocabularyOf.filter (·.2 == c)).map (·.1)
+
+/-- every field of the regenerated struct table is classified, once, and nothing else is -/
+theorem vocabulary_table_complete :
+    vocabularyOf.map (·.1) = Generated.schemaFields.map (·.1) ∧ (Generated.schemaFields.map (·.1)).Nodup := by
+  decide
+
+/-- the 2020-12-only fields are the ten `Inv.eraseNon7` clears, the draft-07-only ones the four of `Inv.eraseNon2020` -/
+theorem vocabulary_only2020 : fieldsOf .only2020 = Inv.non7Fields := by decide
+theorem vocabulary_only7 : fieldsOf .only7 = Inv.non2020Fields := by decide
+
+/-- `Inv.eraseNon7` resets exactly the fields classified "2020-12 only" (each to its zero value, field by field) … -/
+theorem eraseNon7_clears_exactly (n : Node) : Inv.eraseNon7 n = (fieldsOf .only2020).foldr Inv.eraseField n := by
+  rw [vocabulary_only2020]; exact Inv.eraseNon7_eq_foldr n
+
+/-- … and `Inv.eraseNon2020` exactly those classified "draft-07 only" -/
+theorem eraseNon2020_clears_exactly (n : Node) : Inv.eraseNon2020 n = (fieldsOf .only7).foldr Inv.eraseField n := by
+  rw [vocabulary_only7]; exact Inv.eraseNon2020_eq_foldr n
+
+/-- the classification agrees with the regenerated list of fields `(*state).validate` selects: it selects every keyword
+    of both drafts and of draft-07 only, every keyword of 2020-12 only but `$anchor` / `$dynamicAnchor` (which Resolve
+    alone reads), and no `annotation` nor `structural` field -/
+theorem vocabulary_vs_validateReads :
+    (Generated.validateReads.all ((fieldsOf .both ++ fieldsOf .only2020 ++ fieldsOf .only7).contains ·)) = true ∧
+    ((fieldsOf .both ++ fieldsOf .only7).all (Generated.validateReads.contains ·)) = true ∧
+    (fieldsOf .only2020).filter (!Generated.validateReads.contains ·) = ["Anchor", "DynamicAnchor"] ∧
+    ((fieldsOf .annotation ++ fieldsOf .structural).all (!Generated.validateReads.contains ·)) = true := by
+  decide
+
+/-- the class the draft `d` does not see -/
+def Voc.otherOnly : Draft → Voc
+  | .d7 => .only2020
+  | .d2020 => .only7
+
+/-- **Each draft sees only its own vocabulary**, in one statement over the table: under either draft, resetting in every
+    schema object every field the table classifies as a keyword of the OTHER draft only changes no outcome of the Spec
+    nor of the evaluator. -/
+theorem vocabulary_ignored (env : VEnv) :
+    (∀ fuel scope s j,
+      Spec.evalFuel (specEnvOf { env with st := env.st.map fun n => (fieldsOf (Voc.otherOnly env.draft)).foldr Inv.eraseField n })
+        fuel scope s j = Spec.evalFuel (specEnvOf env) fuel scope s j) ∧
+    (∀ fuel stack i s,
+      Go.validateFuel { env with st := env.st.map fun n => (fieldsOf (Voc.otherOnly env.draft)).foldr Inv.eraseField n }
+        fuel stack i s = Go.validateFuel env fuel stack i s) := by
+  obtain ⟨d, hd⟩ : ∃ d, env.draft = d := ⟨_, rfl⟩
+  rw [show Voc.otherOnly env.draft = Voc.otherOnly d from by rw [hd]]
+  cases d with
+  | d7 =>
+    have e : (fun n => (fieldsOf (Voc.otherOnly .d7)).foldr Inv.eraseField n) = Inv.eraseNon7 :=
+      funext fun n => (eraseNon7_clears_exactly n).symm
+    rw [e]
+    exact ⟨(draft7_vocabulary env hd).1, (draft7_vocabulary env hd).2.1⟩
+  | d2020 =>
+    have e : (fun n => (fieldsOf (Voc.otherOnly .d2020)).foldr Inv.eraseField n) = Inv.eraseNon2020 :=
+      funext fun n => (eraseNon2020_clears_exactly n).symm
+    rw [e]
+    exact ⟨(draft2020_vocabulary env hd).1, (draft2020_vocabulary env hd).2.1⟩
 
 /-! ## documents loaded through `$ref` -/
 
@@ -769,5 +958,115 @@ example : (Res.bind (Go.resolve mixedEnv' 4 0 "http://x/root.json") fun rs =>
 example : (Res.bind (Go.resolve mixedEnv' 4 0 "http://x/root.json") fun rs =>
     Go.validate { st := mixedEnv'.st, draft := rs.draft, infos := rs.infos, reMatch := fun _ _ => false, hash := fun _ => 0 }
       Generated.supportedVersions 4 0 (GoVal.ofJson (.str "a"))) = .err := by decide +kernel
+
+/-! ### each draft sees only its own vocabulary: the witness documents -/
+
+/-- `exStore2` (`items` array + `additionalItems` + `prefixItems` + `dependencies`) without the 2020-12-only keyword … -/
+def exStore2Non7 : Store := #[
+  { itemsArray := some [1], additionalItems := some 2, dependencyStrings := some [("a", some ["b"])] },
+  { type := "string" }, { not := some 3 }, {}, { type := "number" } ]
+/-- … and without the draft-07-only ones -/
+def exStore2Non2020 : Store := #[
+  { prefixItems := some [4] }, { type := "string" }, { not := some 3 }, {}, { type := "number" } ]
+example : exStore2.map Inv.eraseNon7 = exStore2Non7 := by simp [exStore2, exStore2Non7, Inv.eraseNon7]
+example : exStore2.map Inv.eraseNon2020 = exStore2Non2020 := by simp [exStore2, exStore2Non2020, Inv.eraseNon2020]
+/-- `draft7_vocabulary` applied -/
+example (fuel : Nat) (i : GoVal) :
+    Go.validateFuel { exEnv2 with st := exStore2.map Inv.eraseNon7 } fuel [] i 0 = Go.validateFuel exEnv2 fuel [] i 0 :=
+  (draft7_vocabulary exEnv2 rfl).2.1 fuel [] i 0
+/-- its hypothesis `env.draft = .d7` cannot be dropped: under 2020-12 `prefixItems` rejects `["x"]` (not a number), and
+    the erased document accepts it -/
+example : Spec.valid (specEnvOf { exEnv2 with draft := .d2020 }) 4 0 (.arr [.str "x"]) = some false := by decide
+example : Spec.valid (specEnvOf { exEnv2 with draft := .d2020, st := exStore2Non7 }) 4 0 (.arr [.str "x"]) = some true := by
+  decide
+example : Go.validate { exEnv2 with draft := .d2020 } [""] 4 0 (GoVal.ofJson (.arr [.str "x"])) = .err := by decide
+example : Go.validate { exEnv2 with draft := .d2020, st := exStore2Non7 } [""] 4 0 (GoVal.ofJson (.arr [.str "x"])) = .ok () := by
+  decide
+/-- `draft2020_vocabulary` applied -/
+example (fuel : Nat) (i : GoVal) :
+    Go.validateFuel { exEnv2 with draft := .d2020, st := exStore2.map Inv.eraseNon2020 } fuel [] i 0
+      = Go.validateFuel { exEnv2 with draft := .d2020 } fuel [] i 0 :=
+  (draft2020_vocabulary { exEnv2 with draft := .d2020 } rfl).2.1 fuel [] i 0
+/-- its hypothesis `env.draft = .d2020` cannot be dropped: under draft-07 array-form `items` rejects `[1]` (not a string)
+    and `dependencies` rejects `{"a": null}`; the erased document accepts both -/
+example : Spec.valid (specEnvOf exEnv2) 4 0 (.arr [.num 1]) = some false := by decide
+example : Spec.valid (specEnvOf { exEnv2 with st := exStore2Non2020 }) 4 0 (.arr [.num 1]) = some true := by decide
+example : Go.validate exEnv2 [""] 4 0 (GoVal.ofJson (.obj [("a", .null)])) = .err := by decide
+example : Go.validate { exEnv2 with st := exStore2Non2020 } [""] 4 0 (GoVal.ofJson (.obj [("a", .null)])) = .ok () := by decide
+
+/-- `{"dependentRequired": {"a": ["b"]}, "dependentSchemas": {"c": false}, "$anchor": "top"}`: nothing under draft-07,
+    two assertions under 2020-12 -/
+def depStore : Store := #[
+  { dependentRequired := some [("a", some ["b"])], dependentSchemas := some [("c", 1)], anchor := "top" },
+  { not := some 2 }, {} ]
+def depInfos : List (NodeId × Info) :=
+  [(0, { path := "root", base := some 0 }), (1, { base := some 0 }), (2, { base := some 0 })]
+def depEnv7 : VEnv :=
+  { st := depStore, draft := .d7, infos := depInfos, reMatch := fun _ _ => false, hash := fun _ => 0 }
+example : depStore.map Inv.eraseNon7 = #[{}, { not := some 2 }, {}] := by simp [depStore, Inv.eraseNon7]
+example : Spec.valid (specEnvOf depEnv7) 4 0 (.obj [("a", .null), ("c", .null)]) = some true := by decide
+example : Go.validate depEnv7 [""] 4 0 (GoVal.ofJson (.obj [("a", .null), ("c", .null)])) = .ok () := by decide
+example : Spec.valid (specEnvOf { depEnv7 with draft := .d2020 }) 4 0 (.obj [("a", .null)]) = some false := by decide
+example : Spec.valid (specEnvOf { depEnv7 with draft := .d2020 }) 4 0 (.obj [("c", .null)]) = some false := by decide
+example : Go.validate { depEnv7 with draft := .d2020 } [""] 4 0 (GoVal.ofJson (.obj [("a", .null)])) = .err := by decide
+example : Go.validate { depEnv7 with draft := .d2020 } [""] 4 0 (GoVal.ofJson (.obj [("c", .null)])) = .err := by decide
+
+/-! #### what is NOT ignored (Schema.Resolve) -/
+
+/-- `resolve_sees_ignored_subschemas`, draft-07: `{"$schema": draft-07, "prefixItems": [{"$ref": "#/nosuch"}]}` does not
+    resolve — the subschema under the unknown keyword `prefixItems` is walked and its dangling `$ref` is an error — while
+    the document without the keyword resolves.  (An evaluation never applies that subschema.) -/
+example : (Go.resolve (renvOf #[{ schema := d7URI, prefixItems := some [1] }, { ref := "#/nosuch" }]) 3 0 "").isOk = false := by
+  decide +kernel
+example : (Go.resolve (renvOf #[{ schema := d7URI }, { ref := "#/nosuch" }]) 3 0 "").isOk = true := by decide +kernel
+/-- the same under 2020-12 with the draft-07 keywords `additionalItems` and `dependencies` -/
+example : (Go.resolve (renvOf #[{ schema := d20URI, additionalItems := some 1 }, { ref := "#/nosuch" }]) 3 0 "").isOk = false := by
+  decide +kernel
+example : (Go.resolve (renvOf #[{ schema := d20URI, dependencySchemas := some [("a", 1)] }, { ref := "#/nosuch" }]) 3 0 "").isOk
+    = false := by
+  decide +kernel
+example : (Go.resolve (renvOf #[{ schema := d20URI }, { ref := "#/nosuch" }]) 3 0 "").isOk = true := by decide +kernel
+/-- … and a `$ref` may designate a schema under an ignored keyword, by JSON Pointer or through the `$id` resolveURIs
+    registered for it: `{"$schema": draft-07, "$ref": "#/prefixItems/0", "prefixItems": [{"type": "string"}]}` resolves to
+    it and rejects `1` -/
+example : resolveThenValidate #[{ schema := d7URI, ref := "#/prefixItems/0", prefixItems := some [1] }, { type := "string" }]
+    (.num 1) = .err := by decide +kernel
+/-- `draft7_vocabulary_keyword_refused`: `$vocabulary` is not an ignored keyword under draft-07 — checkLocal refuses every
+    schema object carrying it whose own `$schema` is not the 2020-12 URI -/
+example : (Go.resolve (renvOf #[{ schema := d7URI, vocabulary := some [("https://json-schema.org/draft/2020-12/vocab/core", true)] }])
+    3 0 "").isOk = false := by decide +kernel
+example : (Go.resolve (renvOf #[{ schema := d7URI }]) 3 0 "").isOk = true := by decide +kernel
+example : (Go.resolve (renvOf #[{ schema := d20URI, vocabulary := some [("https://json-schema.org/draft/2020-12/vocab/core", true)] }])
+    3 0 "").isOk = true := by decide +kernel
+/-- basicChecks reads the draft-07 forms whatever the draft (a Go-built schema only: one JSON `items` member yields one
+    of the two fields): `Items` and `ItemsArray` both set is refused under 2020-12 too -/
+example : (Go.resolve (renvOf #[{ schema := d20URI, items := some 1, itemsArray := some [2] }, {}, {}]) 3 0 "").isOk = false := by
+  decide +kernel
+example : (Go.resolve (renvOf #[{ schema := d20URI, items := some 1 }, {}, {}]) 3 0 "").isOk = true := by decide +kernel
+
+/-! #### `$anchor` under draft-07 (Schema.Resolve) -/
+
+/-- `{"$schema": S, "$ref": "#a", "definitions": {"x": {"$anchor": "a"}}}`: under 2020-12 the reference resolves to
+    `/definitions/x`; under draft-07 `$anchor` registers nothing and the reference dangles … -/
+def anchorStore (schemaURI : String) : Store := #[
+  { schema := schemaURI, ref := "#a", definitions := some [("x", 1)] }, { anchor := "a" } ]
+example : ((Go.resolve (renvOf (anchorStore d20URI)) 3 0 "").bind fun rs =>
+    .ok (rs.infos.map fun e => (e.1, e.2.resolvedRef))) = .ok [(0, some 1), (1, none)] := by decide +kernel
+example : (Go.resolve (renvOf (anchorStore d7URI)) 3 0 "").isOk = false := by decide +kernel
+/-- … as it does in the document without `$anchor` (`draft7_resolve_ignores_anchors` applied), under both drafts: the
+    hypothesis `topDraft = .d7` cannot be dropped -/
+example : (anchorStore d7URI).map Inv.eraseAnchors = #[{ schema := d7URI, ref := "#a", definitions := some [("x", 1)] }, {}] := by
+  simp [anchorStore, Inv.eraseAnchors]
+example (fuel : Nat) (base : String) :
+    Go.resolve { renvOf (anchorStore d7URI) with st := (anchorStore d7URI).map Inv.eraseAnchors } fuel 0 base
+      = Go.resolve (renvOf (anchorStore d7URI)) fuel 0 base :=
+  draft7_resolve_ignores_anchors_noloader (renvOf (anchorStore d7URI)) rfl fuel 0 base (by decide +kernel)
+example : (Go.resolve (renvOf #[{ schema := d20URI, ref := "#a", definitions := some [("x", 1)] }, {}]) 3 0 "").isOk = false := by
+  decide +kernel
+/-- the draft-07 spelling: `{"$id": "#a"}` is the anchor there (and refused under 2020-12) -/
+example : ((Go.resolve (renvOf #[{ schema := d7URI, ref := "#a", definitions := some [("x", 1)] }, { id := "#a" }]) 3 0 "").bind
+    fun rs => .ok (rs.infos.map fun e => (e.1, e.2.resolvedRef))) = .ok [(0, some 1), (1, none)] := by decide +kernel
+example : (Go.resolve (renvOf #[{ schema := d20URI, ref := "#a", definitions := some [("x", 1)] }, { id := "#a" }]) 3 0 "").isOk
+    = false := by decide +kernel
 
 end JSV.C02
